@@ -30,6 +30,10 @@ FINE_MODULES = (
     'ml_metrics/_src/chainables/courier_server.py',
     'ml_metrics/_src/chainables/orchestrate.py',
     'ml_metrics/_src/chainables/transform.py',
+    'ml_metrics/_src/chainables/lazy_fns.py',
+    'ml_metrics/_src/chainables/io.py',
+    'ml_metrics/_src/chainables/tree_fns.py',
+    'ml_metrics/_src/utils/func_utils.py',
 )
 
 
